@@ -97,6 +97,7 @@ var defaultInitDeny = []string{
 	"golang.org/x/crypto/", "github.com/cespare", "gopkg.in", "go/", "text/", "embed", "iter", "weak", "unique", "fmt",
 	"golang.org/x/sync", "golang.org/x/term", "golang.org/x/time", "github.com/google/trillian", "github.com/jackc",
 	"github.com/go-sql-driver", "github.com/hashicorp", "github.com/munnerz", "github.com/beorn7", "github.com/kr",
+	"filippo.io/sunlight/internal/heavyhitter", "filippo.io/sunlight/internal/reused", "filippo.io/sunlight/internal/keylog", "filippo.io/sunlight/internal/frequent", "golang.org/x/crypto/acme",
 }
 
 var defaultInitAllow = []string{
